@@ -259,7 +259,8 @@ class Package:
         cache = self.__dict__.setdefault("_folded", {})
         key = (cls, meth, tuple(sorted(keep)), expand)
         if key not in cache:
-            fn = copy.deepcopy(self.expanded(cls, meth, keep) if expand else self.method(cls, meth))
+            owner = self.resolve(cls, meth)[0] or cls          # an inherited method is read where it is defined
+            fn = copy.deepcopy(self.expanded(owner, meth, keep) if expand else self.method(owner, meth))
             cache[key] = fold_static(self.with_class_constants(cls, fn))
         return cache[key]
 
